@@ -226,6 +226,9 @@ def _cl(case):
     return sorted(set(out))
 
 
+SMALL3 = [i for i, u in enumerate(SMALL) if u in ("http://a.com", "http://a.com/", "http://a.com/x", "http://a.com/x/", "http://a.com/x/y", "http://a.com//x", "http://a.com/x?q=1", "http://a.com/x#f",
+                                                  "http://b.a.com", "http://b.a.com/x", "https://a.com", "http://a.com:8080", "http://com", "http://a.co.uk", "http://co.uk", "http://a.com/xy",
+                                                  "http://a.com/x|y?q=1|2", "http://a.com:0", "http://a.com./", "http://a.com/x//", "http://a.com///x", "http://a.com/x|/y")]
 VALS = [0, 1, "", 2, False, "v", 3]      # stored values are arbitrary metadata: falsy ones included (None aside, it is the "nothing stored" answer)
 
 
@@ -235,7 +238,9 @@ def _enum(acc, shard, nshards, seed, tier, length=2):
     for cname in CLASSES:
         for sa in (False, True):
             for L in range(1, length + 1):
-                for combo in itertools.product(range(len(SMALL)), repeat=L):
+                # histories of three stores run over a 22-URL core (cubic growth: the full 32 would take over an hour); of one and two over all
+                pool = range(len(SMALL)) if L < 3 else SMALL3
+                for combo in itertools.product(pool, repeat=L):
                     idx += 1
                     if idx % nshards != shard:
                         continue
@@ -289,7 +294,7 @@ def campaigns(tier, seed):
     L = 2 if tier == "quick" else 3
     return [
         Campaign("exhaustive-histories", _enum, "enumeration", exhaustive=True,
-                 bounds="every history of <=%d stores over %d URLs x 4 classes x suffix_aware; %d queries each" % (L, len(SMALL), len(SMALL_Q)),
+                 bounds="every history of <=%d stores over %d URLs (three stores: over a %d-URL core) x 4 classes x suffix_aware; %d queries each" % (L, len(SMALL), len(SMALL3), len(SMALL_Q)),
                  params={"length": L}),
         Campaign("random-histories", hyp_campaign(_strategy, lambda v: v, _nt, _cl, examples=(250, 5000)), "hypothesis",
                  bounds="<=10/25 stores over ~4,000 URLs, variant kwargs, queries after every step"),
